@@ -49,10 +49,10 @@ FULL = {
     "chain": ["", "A", "1", "a"],
     "res_seq": [-999, -1, 0, 1, 9999, 10000, 12345, -1000],
     "icode": ["", "A"],
-    "x": [0.0, -0.0004, 1.2345, -999.999, 9999.999, -1000.123, 10000.5,
+    "x": [0.0, -0.0004, -0.0007, 1.2345, -999.999, 9999.999, -1000.123, 10000.5,
           12345.678, 99999.0, -99999.0],
-    "charge": [0.0, -1.2345, 12.3456, -0.00004],
-    "radius": [0.0, 1.5, 12.3456],
+    "charge": [0.0, -1.2345, 12.3456, -0.00004, -0.0007, 0.0005, -0.0349],
+    "radius": [0.0, 1.5, 12.3456, 0.0007],
 }
 REDUCED = {
     "record": ["ATOM", "HETATM"],
